@@ -70,7 +70,7 @@ def sym_votes(c, n, A, K, enc, weighted):
             for x in row:
                 c.assume(b_or(x.nan, x.r >= 0))
         w = arrays.SymNd(arrays._to_obj(ws), float)
-        rec(c, "w", w)
+        rec(c, "w", w.copy())
     V = u.compute_vote_vectors(y, w=w, **_kw(enc, K, True))
     c.prove(tuple(V.shape) == (n, K), "shape")
     rv = arrays.raw(arrays.asnd(V))
@@ -82,6 +82,19 @@ def sym_votes(c, n, A, K, enc, weighted):
                     wv = np.float64(1.0) if ws is None else core.f_ite(ws[i][a].nan, np.float64(0.0), ws[i][a])
                     acc = core.s_add(acc, wv)
             c.prove(s_eq(rv[i, k], acc), "votes_equal_weighted_count", info=dict(i=i, k=k))
+    if ws is not None and (idx < 0).any():
+        # labels are acquired and the caller's weight array is handed over again: the votes are those of the caller's
+        # weights (the first call must not have written into the array)
+        idx2 = np.where(idx < 0, 0, idx)
+        V2 = u.compute_vote_vectors(labels_from_idx(idx2, K, enc), w=w, **_kw(enc, K, True))
+        rv2 = arrays.raw(arrays.asnd(V2))
+        for i in range(n):
+            for k in range(K):
+                acc = np.float64(0.0)
+                for a in range(A):
+                    if idx2[i, a] == k:
+                        acc = core.s_add(acc, core.f_ite(ws[i][a].nan, np.float64(0.0), ws[i][a]))
+                c.prove(s_eq(rv2[i, k], acc), "votes_for_reused_weight_array", info=dict(i=i, k=k))
     c.witness((idx < 0).all(), "all_missing")
 
 
@@ -107,6 +120,15 @@ def replay_votes(inputs, label, n, A, K, enc, weighted):
         return V.shape != (n, K), f"shape {V.shape}"
     if V.shape == ref.shape and not np.allclose(V, ref):
         return True, f"y={y.tolist()} w={None if w is None else w.tolist()}: votes {V.tolist()} expected {ref.tolist()}"
+    if w is not None and (idx < 0).any():
+        w_caller = w.copy()
+        u.compute_vote_vectors(y, w=w_caller, **_kw(enc, K, True))
+        idx2 = np.where(idx < 0, 0, idx)
+        V2 = u.compute_vote_vectors(labels_from_idx(idx2, K, enc, sym=False), w=w_caller, **_kw(enc, K, True))
+        ref2 = _ref_votes(idx2, w, K)
+        if V2.shape == ref2.shape and not np.allclose(V2, ref2):
+            return True, (f"y={y.tolist()} then all labels given, same weight array w={w.tolist()}: votes {V2.tolist()} "
+                          f"expected {ref2.tolist()} (array after the first call: {w_caller.tolist()})")
     return False, "not reproduced"
 
 
@@ -124,7 +146,7 @@ def sym_majority(c, n, A, K, enc, weighted):
             for x in row:
                 c.assume(b_or(x.nan, x.r >= 0))
         w = arrays.SymNd(arrays._to_obj(ws), float)
-        rec(c, "w", w)
+        rec(c, "w", w.copy())
     seed = fresh_int("seed", 0, 2 ** 32 - 1)
     rec(c, "seed", seed)
     r = u.majority_vote(y, w=w, random_state=seed, **_kw(enc, K, True))
